@@ -68,6 +68,8 @@ def check(cfg, out, stats):
             if not replay_violation(v):
                 raise Inconclusive("pre-emption counterexample does not reproduce on the simulator")
             out.violations.append(v)
+            from ..bmc import mark_violation
+            mark_violation()
             break
     cosim(make, cycles=24, seed=len(cfg_key(cfg)), stats=stats)
 
